@@ -166,8 +166,12 @@ class LayoutTable:
         self.leaves = leaves
         nk = len(ctx.keycodes)
         self.nk = nk
-        self.out = [None] * (nk * 1024)
-        self.leaf_of = [None] * (nk * 1024)
+        # one slot per Ctrl-handling mode the enum has (the properties speak about two; a mode added later gets cells too,
+        # which no rule reads)
+        self.nm = nm = max(2, len(ctx.hc))
+        self.stride = 512 * nm
+        self.out = [None] * (nk * self.stride)
+        self.leaf_of = [None] * (nk * self.stride)
         self.n_classes = len(leaves)
         names = ['keycode'] + ['modifiers.' + f for f in ctx.modfields] + ['handle_ctrl']
         self.engine_stats = dict(engine.stats)
@@ -189,10 +193,10 @@ class LayoutTable:
             mods_iter = list(itertools.product(*doms[1:10]))
             mod_idx = [sum(b << i for i, b in enumerate(m)) for m in mods_iter]
             for k in doms[0]:
-                base = k * 1024
+                base = k * self.stride
                 for mi, m in zip(mod_idx, mods_iter):
                     for h in doms[10]:
-                        idx = base + mi * 2 + h
+                        idx = base + mi * nm + h
                         if self.out[idx] is not None:
                             raise Undecided('layout classes overlap at cell %d' % idx)
                         if code is None:
@@ -216,10 +220,10 @@ class LayoutTable:
         return RAW_BASE + native[2][0]
 
     def get(self, key, mods, mode):
-        return self.out[key * 1024 + mods * 2 + mode]
+        return self.out[key * self.stride + mods * self.nm + mode]
 
     def leaf(self, key, mods, mode):
-        return self.leaves[self.leaf_of[key * 1024 + mods * 2 + mode]]
+        return self.leaves[self.leaf_of[key * self.stride + mods * self.nm + mode]]
 
     def where(self, key, mods, mode):
         return leaf_where(self.leaf(key, mods, mode))
